@@ -57,6 +57,20 @@ def std_queries(tier, seed, depth2=True):
             if depth2 and tier == 'thorough' and wi % 5 == 0:
                 for script, pos in worlds.scripts(q, 2, False, chim[:2]):
                     out.append((ri, dict(window=[ri, s, l], reverse=rev, offset=off, script=_js(script)), [round(p + off, 1) for p in pos]))
+    # four-part molecules around an inversion breakpoint: forward head (copy of a reference stretch), unrelated labels, the ADJACENT
+    # reference stretch inverted (the longest part: it wins the first pass on the other strand), unrelated tail
+    for ri in range(3 if tier == 'thorough' else 2):
+        ref, other = refs[ri], refs[(ri + 1) % 3]
+        for s0, rev in ((8, False), (30, True)):
+            head = worlds.window_query(ref, s0, 12, rev)[0][2]
+            u1 = worlds.window_query(other, 5, 11, False)[0][2]
+            binv = worlds.window_query(ref, s0 + 12, 20, not rev)[0][2]
+            u2 = worlds.window_query(other, 40, 12, True)[0][2]
+            parts = [head, u1, binv, u2] if not rev else [u2, binv, u1, head]
+            q4 = list(parts[0])
+            for part in parts[1:]:
+                q4 = worlds.apply_edit(q4, ('chimera', list(part), 5000.0))
+            out.append((ri, dict(window=[ri, s0, 32], reverse=rev, offset=0.0, script=[['inversion-4-part']]), q4))
     return refs, out
 
 
@@ -268,10 +282,14 @@ def judge_c02(ctx, mode, extra, obs, acc):
         if r['Orientation'] not in ('+', '-'):
             bad('Orientation', r['Orientation'])
             continue
-        if not record_valid(r, rmap, qmap):
+        if not r['pairs'] or any(not (1 <= a <= len(rmap[1]) and 1 <= b <= len(qmap[1])) for a, b in r['pairs']):
             if acc is not None:
-                acc.classes['deferred-to-C01(invalid matching)'] += 1
+                acc.classes['deferred-to-C01(no pairs / labels that do not exist)'] += 1
             continue
+        # a record whose pair list is not a valid matching is still judged: every field formula below is defined for any list of
+        # existing labels (first / last listed reference label, lowest / highest listed query label)
+        if acc is not None and not record_valid(r, rmap, qmap):
+            acc.classes['records-with-invalid-matching'] += 1
         rev = r['Orientation'] == '-'
         rlen, rpos = rmap
         qlen, qpos = qmap
